@@ -35,6 +35,7 @@ type Stats struct {
 	SolverTime   time.Duration
 	MaxDepth     int
 	Terminal     int
+	SleepPruned  int
 }
 
 func (s *Stats) add(o *Stats) {
@@ -59,6 +60,7 @@ func (s *Stats) add(o *Stats) {
 		s.MaxDepth = o.MaxDepth
 	}
 	s.Terminal += o.Terminal
+	s.SleepPruned += o.SleepPruned
 }
 
 // RunResult is the outcome of exploring one harness.
